@@ -74,6 +74,8 @@ def check_exit(I, con, bound, old_heap, tr_old_len, outcome, value):
     _attach_trace(spec, ctx, tr_old_len)
     views = views_of(spec, bound, new_heap)
     name = short(con.key)
+    if outcome == "return" and con.never_returns:
+        ctx.oblige("%s/never-returns" % name, False, kind="post")
     if outcome == "return":
         rty = con.result
         if rty is not None and not isinstance(rty, TNone):
@@ -264,6 +266,27 @@ def cvc5_check(solver):
         os.unlink(path)
 
 
+def witness_cover(E, con):
+    """vacuity guard for preconditions the solver cannot satisfy by itself (quantified representation invariants):
+    the sidecar names real objects, built by the real constructors, and the precondition is evaluated on them"""
+    from .concrete import HeapBuilder, holds
+
+    ctx = Ctx(E, [], "witness")
+    hb = HeapBuilder(ctx)
+    objs = con.witness()
+    bound = {}
+    for name, ty in con.params.items():
+        ty = ctx.resolve_ty(ty)
+        bound[name] = SV(hb.encode(objs[name], ty), ty)
+    heap = hb.heap()
+    spec = Spec(ctx, heap, heap)
+    spec.tr, spec.trlen, spec.tr_old_len = ctx.tr, ctx.trlen, ctx.trlen
+    shapes_ok = z3.And(*[sv.ty.inv(sv.t, goal=True) for sv in bound.values()])
+    cl = eval_clause(con.requires, spec, views_of(spec, bound, heap))
+    r = holds(z3.And(shapes_ok, *cl.values()))
+    return "sat" if r is True else "witness-does-not-satisfy-requires(%s)" % r
+
+
 def verify_contract(E, con, thorough=False):
     res = FunctionResult(con.key)
     t0 = time.time()
@@ -290,6 +313,8 @@ def verify_contract(E, con, thorough=False):
         s.set("timeout", Z3_TIMEOUT_MS)
         s.add(*ctx.pc)
         res.requires_sat = str(s.check())
+        if res.requires_sat == "unknown" and con.witness is not None:
+            res.requires_sat = witness_cover(E, con)
     except Exception as ex:  # noqa
         res.requires_sat = "error: %s" % ex
     for ob in obs:
